@@ -56,6 +56,7 @@ func main() {
 	fnFilter := fs.String("func", "", "regexp on pkg::key (dump/check)")
 	oblFilter := fs.String("obl", "", "regexp on obligation name (dump)")
 	nocache := fs.Bool("nocache", false, "ignore the unsat cache")
+	showModel := fs.Bool("model", false, "dump: solve and print the scalar part of the model")
 	verbose := fs.Bool("v", false, "verbose")
 	fs.Parse(os.Args[2:])
 	if *verif == "" {
@@ -82,7 +83,7 @@ func main() {
 		os.RemoveAll(scratchDir)
 		os.Exit(code)
 	case "dump":
-		runDump(*repo, *verif, *prop, *fnFilter, *oblFilter)
+		runDump(*repo, *verif, *prop, *fnFilter, *oblFilter, *showModel)
 	case "replay":
 		if fs.NArg() < 1 {
 			fmt.Println("usage: govc replay <path>")
@@ -149,7 +150,7 @@ func collectJobs(e *Engine, prop, fnFilter string) ([]*funcJob, []string) {
 	return jobs, missing
 }
 
-func runDump(repo, verif, prop, fnFilter, oblFilter string) {
+func runDump(repo, verif, prop, fnFilter, oblFilter string, showModel bool) {
 	e, err := loadEngine(repo, verif, propPackages(verif, prop))
 	if err != nil {
 		fmt.Println("load:", err)
@@ -176,7 +177,22 @@ func runDump(repo, verif, prop, fnFilter, oblFilter string) {
 				continue
 			}
 			fmt.Println("----", o.Name, o.Pos)
-			if ore != nil {
+			if ore != nil && showModel {
+				useCache = false
+				r := solve(vc.script(o, true), 20, false)
+				fmt.Println("status:", r.Status, r.Solver)
+				m := parseModel(r.Output)
+				var ks []string
+				for k := range m {
+					ks = append(ks, k)
+				}
+				sort.Strings(ks)
+				for _, k := range ks {
+					fmt.Printf("  %s = %s\n", k, m[k])
+				}
+				fmt.Println("goal:", o.Goal)
+				fmt.Println("reach:", o.Reach)
+			} else if ore != nil {
 				fmt.Println(vc.script(o, true))
 			}
 		}
